@@ -206,7 +206,19 @@ pub fn world_from(bp: &Blueprint, ports: &HostPorts, rt_seed: u64) -> World {
             w.add_server(addr, Proto::Udp, Box::new(OneShotServer::new(vec![0xfe, 0x01], st.datagram())));
         }
         Blueprint::Eco(st) => {
-            w.http = Some(Box::new(EcoHttp { st: st.clone(), expect_host: SERVER_IP.to_string(), expect_port: ports.main, requests: Vec::new(), fail: None }));
+            if rt_seed & 1 == 0 {
+                w.http = Some(Box::new(EcoHttp { st: st.clone(), expect_host: SERVER_IP.to_string(), expect_port: ports.main, requests: Vec::new(), fail: None }));
+            } else {
+                // a real HTTP/1.1 origin: the HTTP client itself runs
+                let framing = match (rt_seed >> 1) % 3 {
+                    0 => crate::models::misc::HttpFraming::ContentLength,
+                    1 => crate::models::misc::HttpFraming::Chunked(vec![1 + ((rt_seed >> 8) % 700) as usize]),
+                    _ => crate::models::misc::HttpFraming::UntilClose,
+                };
+                let mut srv = crate::models::misc::HttpTcpServer::new(st.body(), framing);
+                srv.gzip = (rt_seed >> 4) & 1 == 1;
+                w.add_server(addr, Proto::Tcp, Box::new(srv));
+            }
         }
     }
     w
@@ -511,7 +523,7 @@ impl Prop for C14 {
     }
 
     fn rule(&self) -> String {
-        "case index enumerates every entry of the definitions table x 6 server behaviours (valid with the main / dedicated / a foreign app id, partial: players section silent, partial: rules section silent, total silence) x port given / omitted x default / explicit timeout settings (explicit: generic vs protocol-level only, the modules take none); the tape draws the server state and transport; each case builds three identical worlds (same state, same runtime seed) and runs (a) query_with_timeout_and_extra_settings, (b) the game's dedicated module where one exists, (c) the protocol's own query function with the definition's parameters; oracle: same destination port and request bytes in the same order, same outcome class / error kind, equal common view and protocol-specific value (per-game Valve responses through the library's conversion); distinct = (cell, event-log hash)".to_string()
+        "case index enumerates every entry of the definitions table x 6 server behaviours (valid with the main / dedicated / a foreign app id, partial: players section silent, partial: rules section silent, total silence) x port given / omitted x default / explicit timeout settings (explicit: generic vs protocol-level only, the modules take none); the tape draws the server state and transport; each case builds three identical worlds (same state, same runtime seed) and runs (a) query_with_timeout_and_extra_settings, (b) the game's dedicated module where one exists, (c) the protocol's own query function with the definition's parameters; oracle: same destination port and request bytes in the same order, same outcome class / error kind, equal common view and protocol-specific value (per-game Valve responses against a field-by-field mapping of the protocol-level response written in the check); distinct = (cell, event-log hash)".to_string()
     }
 
     fn assumptions(&self) -> Vec<String> {
